@@ -240,21 +240,6 @@ func featOf(sc *Scenario, e *Event) []string {
 	return sc.Feat
 }
 
-// vertexSet: the vertices of a line / polyline / polygon element in its user space (nil for other kinds).
-func vertexSet(e *Elem) map[[2]float64]bool {
-	switch e.Kind {
-	case "line":
-		return map[[2]float64]bool{{float64(e.Geo[0]), float64(e.Geo[1])}: true, {float64(e.Geo[2]), float64(e.Geo[3])}: true}
-	case "polyline", "polygon":
-		m := map[[2]float64]bool{}
-		for _, p := range e.Pts {
-			m[[2]float64{float64(p[0]), float64(p[1])}] = true
-		}
-		return m
-	}
-	return nil
-}
-
 func cellsSig(prefix, kind, suffix string) string {
 	if suffix == "" {
 		return prefix + "cells:" + kind
@@ -501,22 +486,27 @@ func compare(sc *Scenario, c *canvas.Canvas, prefix string) (ms []core.Mismatch)
 						}
 						bestG = max(bestG, grade(bad, inMiss, outHit))
 					}
-					if nIn == 0 {
-						// an outline without area (line, collinear polygon) has no cells to recognise it by: recognise it by its vertices
-						if pts := vertexSet(&sc.Doc.Es[eg[a].el-1]); pts != nil {
-							bestG = 0
-							all, cnt := true, 0
-							for _, cc := range o.cs {
-								for _, q := range cc.Pts {
-									cnt++
-									if !pts[[2]float64{q.X, q.Y}] {
-										all = false
-									}
+					// second means of recognition: every junction of the recorded path is a vertex of the element's outline
+					// (outlines without area and outlines made of curves have few or no decided cells)
+					if vs := sc.Shapes[a].VS; len(vs) > 0 {
+						set := map[[2]float64]bool{}
+						for _, p := range vs {
+							set[[2]float64{float64(p[0]) / 8, float64(p[1]) / 8}] = true
+						}
+						all, cnt := true, 0
+						for ci, cc := range o.cs {
+							for pi, q := range cc.Pts {
+								if ci < len(o.junc) && pi < len(o.junc[ci]) && !o.junc[ci][pi] {
+									continue
+								}
+								cnt++
+								if !set[[2]float64{q.X, q.Y}] {
+									all = false
 								}
 							}
-							if all && cnt >= 2 {
-								bestG = 16
-							}
+						}
+						if all && cnt >= 2 {
+							bestG = max(bestG, 16)
 						}
 					}
 					v += bestG
